@@ -267,14 +267,28 @@ def execute(case):
                  'contact header and then SESS_INIT may be written before the session exists' % (early[:4], pre))
     if any(pre):
         out.label('slow-negotiation')
+    nul_id = '\x00' in peer_cfg['nodeid']
     if hdl._state != 'established':
+        if nul_id:
+            # a node id that cannot be passed on over D-Bus may be refused altogether
+            out.label('nul-node-id-refused')
+            for esc in world.escapes():
+                out.fail('escape:%s@%s' % (esc.exc_type, esc.frame), 'exception escaped an event-loop callback: %s: %s' % (esc.exc_type, esc.exc_msg[:120]))
+            return out
         out.fail('not-established', 'handshake with a conforming peer ended in state %s' % hdl._state)
         return out
     # (1) negotiated parameters
     params = end.call('get_session_parameters')
+    last = dbus.RECORDER.events[-1] if dbus.RECORDER.events else {}
+    if last.get('kind') == 'return' and last.get('member') == 'get_session_parameters' and last.get('error'):
+        out.fail('params-do-not-marshal', 'the reply of get_session_parameters() does not fit a{sv}: %s (peer node id %r)'
+                 % (last['error'], peer_cfg['nodeid'][:30]))
     if hasattr(params, 'exc'):
         out.fail('params-error', 'get_session_parameters failed: %r' % (params,))
     else:
+        if nul_id:
+            out.label('nul-node-id')
+            peer_cfg = dict(peer_cfg, nodeid=params.get('peer_nodeid'))    # not comparable: only marshalling is judged
         want = {'keepalive': neg, 'peer_nodeid': peer_cfg['nodeid'], 'peer_segment_mru': peer_cfg['segment_mru'],
                 'peer_transfer_mru': peer_cfg['transfer_mru']}
         for key, val in want.items():
